@@ -46,7 +46,7 @@ CHECKS = {
         note="Trusts SimDisk, the canonical digest and the frame byte ranges taken from the write-event log."),
     "C16": dict(level="exploration", ref="DESIGN.md section 3 (C16)",
         technique="deterministic simulation: seeded call histories and baton-scheduled real threads pre-empted at sys.monitoring LINE events, differential against pristine-process outcomes + module-table digests",
-        text="A pool of API calls is executed in seeded orders/repetitions in one interpreter and interleaved from 2-16 real threads under a seeded scheduler (pre-emption at iodata line granularity and at seam calls); every outcome must equal the outcome of the same call alone in a pristine forked process (cross-checked against really fresh interpreters) and all module-level tables must keep their pristine digest; memo caches and other scratch state are reset before every run and judged by outcomes; calls seen to write process-global state or to emit warnings when run alone are interleaved pairwise with pre-emption right after every global store and after every save/restore/use of the warnings machinery (a seam); every run has a step budget derived from the calls' solo step counts (bounded liveness), a seeded content of uninitialised memory (allocator seam: np.empty called from iodata) and an application warning filter (ignore/always).",
+        text="A pool of API calls is executed in seeded orders/repetitions in one interpreter and interleaved from 2-16 real threads under a seeded scheduler (pre-emption at iodata line granularity and at seam calls); every outcome must equal the outcome of the same call alone in a pristine forked process (cross-checked against really fresh interpreters) and all module-level tables must keep their pristine digest; memo caches and other scratch state are reset before every run and judged by outcomes; calls seen to write process-global state or to emit warnings when run alone are interleaved pairwise with pre-emption right after every global store and after every save/restore/use of the warnings machinery (a seam); every run has a step budget derived from the calls' solo step counts (bounded liveness), a seeded content of uninitialised memory (allocator seam: np.empty called from iodata), an application warning filter (ignore/always), a simulated wall clock (clock seam) and numpy print options; intrinsic oracles (a frame must not change after it was handed out) and metamorphic ones (another memory layout of equal values) complement the differential.",
         note="Trusts fork-of-pristine as 'fresh interpreter' (cross-checked against real fresh subprocesses in thorough), line-granularity pre-emption, which warnings reach whom is excluded from verdicts in threaded runs (that calls return, with the same objects and bytes, is not); numpy/scipy internals see the real allocator."),
     "C18": dict(level="exploration", ref="DESIGN.md section 3 (C18)",
         technique="deterministic simulation: differential CLI-vs-API runs under identical seeded input crash states and output write-fault plans (in-process main() and real subprocesses with seams installed via sitecustomize)",
